@@ -38,6 +38,11 @@ type LkMethod struct {
 	Type, Name string
 	Line       int
 	Paths      [][]LkAction
+	// Fails[k]: some control-flow path with the actions Paths[k] ends in a return whose last operand is an error that is
+	// not the literal nil (`return err`, `return nil, ErrX`, `return m.Fee(t)`): the call may report failure after
+	// exactly these actions. Always false for methods whose last result is not `error`. (Additive: the table printed
+	// as fee_methods does not change; fee_method_fails is printed next to it.)
+	Fails []bool
 }
 
 // LkTable is everything Locks.v contains.
@@ -334,11 +339,16 @@ func LockTable(repo string) (*LkTable, error) {
 		if len(rf.Names) == 1 && rf.Names[0].Name != "_" {
 			w.recv = rf.Names[0].Obj
 		}
+		if rs := m.fd.Type.Results; rs != nil && len(rs.List) > 0 {
+			if id, ok := rs.List[len(rs.List)-1].Type.(*ast.Ident); ok && id.Name == "error" {
+				w.errLast = true
+			}
+		}
 		paths, err := w.walkBody(m.fd.Body)
 		if err != nil {
 			return nil, err
 		}
-		tbl.Methods = append(tbl.Methods, LkMethod{Type: m.tn, Name: m.fd.Name.Name, Line: c.line(m.fd), Paths: paths})
+		tbl.Methods = append(tbl.Methods, LkMethod{Type: m.tn, Name: m.fd.Name.Name, Line: c.line(m.fd), Paths: paths, Fails: w.pathFails(paths)})
 	}
 	if len(tbl.Methods) == 0 {
 		return nil, fmt.Errorf("no methods found")
@@ -378,6 +388,9 @@ type lkWalker struct {
 	recv     *ast.Object
 	elemVars map[*ast.Object]bool
 	done     [][]LkAction
+	// doneFail[i]: finished path i ends in a return of a possibly non-nil error; errLast: the method's last result is `error`
+	doneFail []bool
+	errLast  bool
 }
 
 const lkMaxPaths = 256
@@ -718,12 +731,54 @@ func lkHasReturn(n ast.Node) bool {
 	return found
 }
 
-func (w *lkWalker) finish(p lkPath) {
+func (w *lkWalker) finish(p lkPath) { w.finishFail(p, false) }
+
+func (w *lkWalker) finishFail(p lkPath, fails bool) {
 	acts := append([]LkAction{}, p.acts...)
 	for i := len(p.deferred) - 1; i >= 0; i-- {
 		acts = append(acts, p.deferred[i])
 	}
 	w.done = append(w.done, acts)
+	w.doneFail = append(w.doneFail, fails)
+}
+
+// returnsFailure: a return statement of a method whose last result is `error` reports failure unless its last operand is
+// the identifier nil. A return without operands (named results) and a return of a call's results count as failure too
+// (it cannot be told syntactically; erring on this side asks more of the path, never less).
+func (w *lkWalker) returnsFailure(x *ast.ReturnStmt) bool {
+	if !w.errLast {
+		return false
+	}
+	if len(x.Results) == 0 {
+		return true
+	}
+	if id, ok := x.Results[len(x.Results)-1].(*ast.Ident); ok && id.Name == "nil" {
+		return false
+	}
+	return true
+}
+
+// lkPathFails: per listed path (identical action sequences are listed once), whether any of the finished paths with
+// these actions reports failure.
+func (w *lkWalker) pathFails(paths [][]LkAction) []bool {
+	key := func(p []LkAction) string {
+		k := ""
+		for _, a := range p {
+			k += a.Kind + " " + a.Obj + " " + a.Arg + ";"
+		}
+		return k
+	}
+	failing := map[string]bool{}
+	for i, p := range w.done {
+		if i < len(w.doneFail) && w.doneFail[i] {
+			failing[key(p)] = true
+		}
+	}
+	out := make([]bool, len(paths))
+	for i, p := range paths {
+		out[i] = failing[key(p)]
+	}
+	return out
 }
 
 func (w *lkWalker) walkBody(b *ast.BlockStmt) ([][]LkAction, error) {
@@ -889,8 +944,9 @@ func (w *lkWalker) stmt(s ast.Stmt, live []lkPath) ([]lkPath, error) {
 				return nil, err
 			}
 		}
+		fails := w.returnsFailure(x)
 		for _, p := range lkAppendAll(live, acts) {
-			w.finish(p)
+			w.finishFail(p, fails)
 		}
 		return nil, nil
 	case *ast.AssignStmt:
@@ -1093,6 +1149,32 @@ func LocksCoqTerm(t *LkTable, comments bool) string {
 	return sb.String()
 }
 
+// LockFailsCoqTerm renders, per method, which of its listed paths may report failure (a term of type
+// list (string * string * list bool), aligned with LocksCoqTerm's paths).
+func LockFailsCoqTerm(t *LkTable) string {
+	var sb strings.Builder
+	sb.WriteString("[")
+	for i, m := range t.Methods {
+		if i > 0 {
+			sb.WriteString(";")
+		}
+		fmt.Fprintf(&sb, "\n  (%s, %s, [", lkCoqString(m.Type), lkCoqString(m.Name))
+		for k := range m.Paths {
+			if k > 0 {
+				sb.WriteString("; ")
+			}
+			if k < len(m.Fails) && m.Fails[k] {
+				sb.WriteString("true")
+			} else {
+				sb.WriteString("false")
+			}
+		}
+		sb.WriteString("])")
+	}
+	sb.WriteString("\n]")
+	return sb.String()
+}
+
 func genLocks(repo string) (string, error) {
 	t, err := LockTable(repo)
 	if err != nil {
@@ -1138,6 +1220,13 @@ Local Open Scope string_scope.
 	sb.WriteString("].\n\n")
 	sb.WriteString("Definition fee_methods : list (string * string * list (list (string * string * string))) :=\n")
 	sb.WriteString(LocksCoqTerm(t, true))
+	sb.WriteString(".\n\n")
+	sb.WriteString(`(* Per method, per path listed above (same order): may a call report FAILURE after exactly these actions - does some
+   control-flow path with these actions end in a return whose last operand (of type error) is not the literal nil.
+   coq/model/FailedWrites.v judges: such a path stores nothing (no write, calls inlined). *)
+`)
+	sb.WriteString("Definition fee_method_fails : list (string * string * list bool) :=\n")
+	sb.WriteString(LockFailsCoqTerm(t))
 	sb.WriteString(".\n")
 	return sb.String(), nil
 }
